@@ -212,4 +212,5 @@ func main() {
 	genListFns(repo, out)
 	genBackupFn(repo, out)
 	genQuoteFn(repo, out)
+	genMtreeLine(repo, out)
 }
